@@ -43,7 +43,11 @@ def enumerate_sites(P, crates=CORE):
             if what:
                 k = (what[0], what[1])
                 counts[k] = counts.get(k, 0) + 1
-                sites.append({"fn": key, "kind": what[0], "what": what[1], "ord": counts[k] - 1, "span": t.get("sp"), "exp": bool(t.get("exp")), "block": bi, "crate": body["crate"]})
+                site = {"fn": key, "kind": what[0], "what": what[1], "ord": counts[k] - 1, "span": t.get("sp"), "exp": bool(t.get("exp")), "block": bi, "crate": body["crate"]}
+                if t["k"] == "assert":
+                    a_ = t["m"].get("a") or {}
+                    site["ty"] = a_.get("ty") or (a_.get("p") or {}).get("ty")       # the integer type the checked operation is carried out in
+                sites.append(site)
     # unsafe operations from HIR
     ucount = {}
     for u in P.unsafe_blocks:
